@@ -114,6 +114,15 @@ def r2_header_once(ctx):
         dep = [u(t.ast) for t in gs if "header_array" in u(t.ast) or "len(header" in u(t.ast)]
         ctx.ob(f.where, "whether the header is written does not depend on the header's content (an empty first header still marks it written)", not dep, "; ".join(dep),
                key="C03-R2|unconditional")
+    # an empty table still gets its header: the early return for empty data comes after the header decision
+    empties = [n for n in g.nodes if n.kind == "stmt" and isinstance(n.ast, ast.Return) and any(sym.canon(t.ast) in (f"(0)==(len({d}))", f"not(len({d}))") and lab in ("T", True)
+                                                                                                 for t, lab in g.guards(n) if t.kind == "test")]
+    hdr_tests = [t for h in hw for t, lab in g.guards(h) if t.kind == "test" and "make_header" in u(t.ast)]
+    for e in empties:
+        ok = bool(hdr_tests) and all(g.dominates(t, e) for t in hdr_tests)
+        ctx.ob(f.where, "writing an empty table still writes the header first (a file that received only empty tables is a valid, header-only file): the early return for "
+               "empty data is placed after the header decision", ok, f"line {e.ast.lineno}", key="C03-R2|empty-after-header")
+    ctx.count("early returns for empty data", len(empties))
     # stream cases recurse into the same writer and return
     loops = [n for n in g.nodes if n.kind == "for"]
     rec = [c for c in func_calls(f.node) if u(c.func) == "self.write"]
